@@ -9,8 +9,12 @@ interface. A history is a list of operations generated as data:
 
 with a per-send plan for the stub (ok + confirmation, slow, raising CommunicationError /
 ConversionError / an unexpected exception type, missing or late confirmation), raising
-telegram callbacks, raising devices and a rate limit. After the history `xknx.join()` and
-`telegram_queue.stop()` are awaited with a virtual-time bound. Every telegram carries a
+telegram callbacks, raising devices and a rate limit. Callbacks may forward a further outgoing
+telegram and devices may answer a GroupValueRead with a response (follow-up telegrams queued
+while a telegram is being processed). After the history either `xknx.join()` and
+`telegram_queue.stop()`, or the public `XKNX.stop()` (while telegrams are still pending) followed
+by `xknx.join()`, are awaited with a virtual-time bound. The queue order is the observed order of
+`put_nowait` calls on `xknx.telegrams`. Every telegram carries a
 unique source address, so the stub log identifies which telegram each send_cemi carried.
 """
 
@@ -30,8 +34,9 @@ LEVEL = "exploration"
 TECHNIQUE = "property-based testing (Hypothesis) of generated telegram/fault schedules on a real XKNX telegram queue in virtual time; stub-interface log + bounded-time liveness oracle"
 RULE = (
     "case = (rate limit in {0,5,20,100}, up to 14 ops: telegram in/out/internal | virtual sleep | queue restart, per-send stub plan "
-    "{ok, slow, raise CommunicationError/ConversionError/unexpected, no confirmation, late confirmation}, raising/non-raising callbacks, raising/non-raising devices); "
-    "non-trivial = at least two outgoing group telegrams and (a rate limit or at least one injected fault: failing/slow/unconfirmed send, raising callback or raising device that is actually hit); distinct by case"
+    "{ok, slow, raise CommunicationError/ConversionError/unexpected, no confirmation, late confirmation}, raising/non-raising callbacks optionally forwarding a further outgoing telegram, "
+    "raising/non-raising devices optionally answering reads with a response, final phase join()+telegram_queue.stop() or XKNX.stop() with telegrams pending, then join()); "
+    "non-trivial = at least two outgoing group telegrams and (a rate limit or at least one injected fault: failing/slow/unconfirmed send, raising callback or raising device that is actually hit, or follow-up telegrams); distinct by case"
 )
 LEVEL_TEXT = (
     "Generated schedules were run through the real telegram queue in virtual time; the stub interface log decides order, exclusiveness and spacing of sends and that internal-address telegrams never reach it; "
@@ -39,7 +44,8 @@ LEVEL_TEXT = (
 )
 LEVEL_NOTE = "Single-threaded asyncio on a virtual clock; the interface below KNXIPInterface is a stub (send outcomes scripted per call); liveness is bounded-time progress in virtual time."
 ASSUMPTIONS = [
-    "liveness bound: join() and stop() each return within (number of telegrams + 1) x (3 s confirmation timeout + longest scripted send delay + 1/r) + 10 s of virtual time",
+    "queue order = order of put_nowait calls on xknx.telegrams (recorded), including follow-up telegrams queued by callbacks (forwarding) and devices (answering a read) during processing; follow-ups are not forwarded again",
+    "liveness bound: join() and stop() each return within (number of telegrams incl. possible follow-ups + 1) x (3 s confirmation timeout + longest scripted send delay + 1/r) + 10 s of virtual time",
     "rate limit spacing is checked on send_cemi start times with a tolerance of 1e-6 s (timer wake-ups on the loop are exact up to the 1e-9 clock resolution)",
     "'reaches the interface' = one KNXIPInterface.send_cemi call per outgoing group telegram, whether it then succeeds or raises",
     "callbacks and devices are required for internal-address telegrams only when no device on that address raises for it (the statement demands liveness, not delivery, after a device error); for all telegrams they must never be invoked more than once",
@@ -49,6 +55,13 @@ ASSUMPTIONS = [
 ]
 
 BASE_SRC = 0x1100
+FOLLOW_SRC = 0x2000  # source addresses of follow-up telegrams queued by callbacks / devices while a telegram is processed
+FOLLOW_ID = 1000  # telegram ids of follow-ups: 1000, 1001, ... in the order they were queued
+
+
+def _tid(raw: int) -> int:
+    """Telegram id from its unique source address: 0.. for the history's telegrams, 1000.. for follow-ups."""
+    return FOLLOW_ID + raw - FOLLOW_SRC if raw >= FOLLOW_SRC else raw - BASE_SRC
 RATES = [0, 5, 20, 100]
 SEND_KINDS = ["ok", "ok", "ok", "slow", "comm", "conv", "unexpected", "noconfirm", "lateconfirm", "slowraise"]
 UNEXPECTED = ["ValueError", "OSError", "RuntimeError", "TimeoutError"]
@@ -113,6 +126,8 @@ def plan_entry(p) -> dict:
 
 def _bound(case) -> float:
     ntg = sum(1 for op in case["ops"] if op[0] == "tg")
+    # follow-ups: every forwarding callback may add one telegram per telegram, every responding device one per read
+    ntg *= (1 + sum(1 for cb in case["cbs"] if cb.get("fwd"))) * (1 + sum(1 for d in case["devs"] if d.get("respond")))
     maxdelay = max([float(p[1]) for p in case["sends"] if p[0] in ("slow", "slowraise")] or [0.0])
     r = case["rate"]
     return (ntg + 1) * (3.0 + maxdelay + (1.0 / r if r else 0.0)) + 10.0
@@ -123,23 +138,37 @@ def execute(case):
     from xknx.remote_value import RemoteValueSwitch
     from xknx.telegram import IndividualAddress, Telegram, TelegramDirection
     from xknx.telegram.address import GroupAddress
+    from xknx.telegram.apci import GroupValueRead
 
-    res: dict = {"cb_calls": [], "dev_calls": [], "stalled": [], "raised": [], "restart_marks": [], "sent": [], "after_join": None, "after_stop": None, "join_time": None, "stop_time": None}
+    state: dict = {"xknx": None, "nfollow": 0}
+
+    def follow_up(dst, apci: str) -> None:
+        """Queue a further outgoing telegram from inside telegram processing (callback / device)."""
+        xknx = state["xknx"]
+        src = IndividualAddress(FOLLOW_SRC + state["nfollow"])
+        state["nfollow"] += 1
+        xknx.telegrams.put_nowait(Telegram(destination_address=dst, payload=_mk_payload(apci), source_address=src, direction=TelegramDirection.OUTGOING))
+
+    res: dict = {"puts": [], "cb_calls": [], "dev_calls": [], "stalled": [], "raised": [], "restart_marks": [], "sent": [], "after_join": None, "after_stop": None, "join_time": None, "stop_time": None}
     bound = _bound(case)
     saved_fmt = GroupAddress.address_format
 
     class Probe(Device):
-        def __init__(self, xknx, name, addr, raises):
+        def __init__(self, xknx, name, addr, raises, respond=False):
             super().__init__(xknx, name)
             self.rv = RemoteValueSwitch(xknx, group_address=addr, sync_state=False, device_name=name)
             self.raises = raises
+            self.respond = respond
             self.idx = int(name[1:])
 
         def _iter_remote_values(self):
             yield self.rv
 
         def process(self, telegram):
-            res["dev_calls"].append((self.idx, telegram.source_address.raw - BASE_SRC))
+            res["dev_calls"].append((self.idx, _tid(telegram.source_address.raw)))
+            if self.respond and isinstance(telegram.payload, GroupValueRead):
+                # like an ExposeSensor / respond_to_read device: answer the read with an outgoing response
+                follow_up(self.rv.group_address, "r1")
             if self.raises:
                 raise _exc(self.raises)
 
@@ -149,7 +178,18 @@ def execute(case):
         h = await XH.create(loop, rate_limit=case["rate"])
         h.connect()
         xknx = h.xknx
+        state["xknx"] = xknx
         plans = case["sends"]
+        # queue order = order of put_nowait on xknx.telegrams (observed, includes follow-ups and the cEMI receive path)
+        orig_put = xknx.telegrams.put_nowait
+
+        def rec_put(item):
+            if item is not None:
+                d = item.destination_address
+                res["puts"].append({"i": _tid(item.source_address.raw), "dir": "out" if item.direction is TelegramDirection.OUTGOING else "in", "dst": d.raw, "internal": isinstance(d.raw, str)})
+            return orig_put(item)
+
+        xknx.telegrams.put_nowait = rec_put  # type: ignore[method-assign]
 
         def behaviour(idx, cemi):
             return plan_entry(plans[idx]) if idx < len(plans) else {}
@@ -160,7 +200,10 @@ def execute(case):
 
             def make(k=k, cb=cb):
                 def f(telegram):
-                    res["cb_calls"].append((k, telegram.source_address.raw - BASE_SRC))
+                    i = _tid(telegram.source_address.raw)
+                    res["cb_calls"].append((k, i))
+                    if cb.get("fwd") and i < FOLLOW_ID:  # forward the history's telegrams only (no forwarding loops)
+                        follow_up(_mk_addr(cb["fwd"]["dst"]), cb["fwd"]["apci"])
                     if cb.get("exc"):
                         raise _exc(cb["exc"])
 
@@ -168,7 +211,7 @@ def execute(case):
 
             xknx.telegram_queue.register_telegram_received_cb(make(), match_for_outgoing=bool(cb.get("out")))
         for k, d in enumerate(case["devs"]):
-            xknx.devices.async_add(Probe(xknx, f"p{k}", _mk_addr(d["addr"]), d.get("exc")))
+            xknx.devices.async_add(Probe(xknx, f"p{k}", _mk_addr(d["addr"]), d.get("exc"), bool(d.get("respond"))))
 
         ntg = 0
         ok = True
@@ -198,7 +241,26 @@ def execute(case):
                     break
                 res["restart_marks"].append(len(h.stub.sent))
                 await xknx.telegram_queue.start()
-        if ok:
+        snap = lambda: (xknx.telegrams.qsize(), xknx.telegrams._unfinished_tasks, xknx.telegram_queue.outgoing_queue.qsize(), xknx.telegram_queue.outgoing_queue._unfinished_tasks, h.stub.inflight)  # noqa: E731
+        if ok and case.get("final") == "xstop":
+            # public XKNX.stop() while telegrams (and their follow-ups) are still pending, then wait for the queue
+            t0 = loop.time()
+            try:
+                await asyncio.wait_for(xknx.stop(), bound)
+                res["stop_time"] = loop.time() - t0
+                res["after_stop"] = snap()
+            except TimeoutError:
+                res["stalled"].append("xknx-stop")
+            except (asyncio.CancelledError, Exception) as e:  # noqa: BLE001
+                res["raised"].append(("xknx-stop", type(e).__name__, exc_site(e)))
+            try:
+                await asyncio.wait_for(xknx.join(), bound)
+                res["after_join"] = snap()
+            except TimeoutError:
+                res["stalled"].append("join-after-xknx-stop")
+            except (asyncio.CancelledError, Exception) as e:  # noqa: BLE001
+                res["raised"].append(("join-after-xknx-stop", type(e).__name__, exc_site(e)))
+        elif ok:
             t0 = loop.time()
             try:
                 await asyncio.wait_for(xknx.join(), bound)
@@ -219,7 +281,7 @@ def execute(case):
                 res["raised"].append(("stop", type(e).__name__, exc_site(e)))
         for rec in h.stub.sent:
             tg = rec["telegram"]
-            res["sent"].append({"i": (tg.source_address.raw - BASE_SRC) if tg is not None else None, "t": rec["t"], "t_done": rec["t_done"], "outcome": rec["outcome"], "dst": str(tg.destination_address) if tg is not None else None})
+            res["sent"].append({"i": _tid(tg.source_address.raw) if tg is not None else None, "t": rec["t"], "t_done": rec["t_done"], "outcome": rec["outcome"], "dst": str(tg.destination_address) if tg is not None else None})
         res["max_inflight"] = h.stub.max_inflight
         xknx.started.clear()
         return None
@@ -238,7 +300,8 @@ def _send_ok(p) -> bool:
 
 def judge(ctx, case, res) -> bool:
     """Report violations; returns True if the case was non-trivial."""
-    tgs = [op[1] for op in case["ops"] if op[0] == "tg"]
+    # every telegram that was put on xknx.telegrams, in queue order: the history's own and the follow-ups
+    tgs = {p_["i"]: {"dir": p_["dir"], "dst": p_["dst"]} for p_ in res["puts"]}
     restarted = any(op[0] == "restart" for op in case["ops"])
     tag = ":after-restart" if restarted else ""
     symptoms = [f"{s_} did not return within {_bound(case):.1f} virtual seconds" for s_ in res["stalled"]] + [f"{what}() raised {site}" for what, _t, site in res["raised"]]
@@ -254,15 +317,15 @@ def judge(ctx, case, res) -> bool:
                 ctx.fail(f"C33:{what}-raised:{tname}", case, f"{what}() raised {site}; sends so far {sends_so_far}")
     for e in res["escaped"]:
         ctx.fail(f"C33:escaped:{type(e['exception']).__name__}{tag}", case, e["repr"] + " " + e["message"])
-    internal = {i for i, t in enumerate(tgs) if isinstance(t["dst"], str)}
-    expected = [i for i, t in enumerate(tgs) if t["dir"] == "out" and i not in internal]
+    internal = {p_["i"] for p_ in res["puts"] if p_["internal"]}
+    expected = [p_["i"] for p_ in res["puts"] if p_["dir"] == "out" and not p_["internal"]]
     sent = [s["i"] for s in res["sent"]]
     stalled = bool(res["stalled"]) or bool(res["raised"])
     # (1) never to the interface: internal addresses (and nothing that was not an outgoing telegram)
     for i in sent:
         if i in internal:
             ctx.fail("C33:internal-reached-interface", case, f"telegram #{i} {tgs[i]} to an internal address was passed to send_cemi")
-        elif i is None or not (0 <= i < len(tgs)) or tgs[i]["dir"] != "out":
+        elif i is None or i not in tgs or tgs[i]["dir"] != "out":
             ctx.fail("C33:sent-not-an-outgoing-telegram", case, f"send_cemi carried telegram #{i}, which is not a queued outgoing telegram")
     sent_g = [i for i in sent if i in set(expected)]
     cnt = Counter(sent_g)
@@ -271,7 +334,8 @@ def judge(ctx, case, res) -> bool:
         ctx.fail("C33:sent-more-than-once", case, f"telegrams {dup} were passed to send_cemi more than once: {sent}")
     missing = [i for i in expected if i not in cnt]
     if missing and not stalled:
-        ctx.fail(f"C33:never-sent{tag}", case, f"outgoing telegrams {missing} never reached the interface although join() and stop() returned; sent {sent}")
+        what = "follow-up" if all(i >= FOLLOW_ID for i in missing) else "queued"
+        ctx.fail(f"C33:never-sent:{what}{tag}", case, f"outgoing telegrams {missing} ({what}; 1000.. = follow-ups queued by callbacks/devices) never reached the interface although join() and stop() returned; queue order {expected}; sent {sent}")
     # (2) order
     first = []
     for i in sent_g:
@@ -330,12 +394,15 @@ def judge(ctx, case, res) -> bool:
             ctx.fail(f"C33:not-all-done:{when}{tag}", case, f"{when}: (telegrams.qsize, unfinished, outgoing_queue.qsize, unfinished, sends in progress) = {st_}")
     # non-trivial?
     faults = any(p[0] != "ok" for p in case["sends"][: len(expected)])
-    for i, tg in enumerate(tgs):
+    for i, tg in tgs.items():
         if any(cb.get("exc") and cbc.get((k, i), 0) for k, cb in enumerate(case["cbs"])):
             hit_faults = True
         if any(d.get("exc") and dvc.get((k, i), 0) for k, d in enumerate(case["devs"])):
             hit_faults = True
-    return len(expected) >= 2 and (bool(r) or faults or hit_faults)
+    follow = any(i >= FOLLOW_ID for i in expected)
+    if follow:
+        ctx.notes["cases_with_follow_ups"] = ctx.notes.get("cases_with_follow_ups", 0) + 1
+    return len(expected) >= 2 and (bool(r) or faults or hit_faults or follow)
 
 
 def check_case(ctx, case) -> bool:
@@ -370,8 +437,13 @@ def cases(draw):
             return _pick(draw, pool)
         return _pick(draw, names)
 
-    cbs = [{"out": bool(draw(_I(0, 1))), "exc": _pick(draw, [None, None, "ValueError", "conv", "RuntimeError"])} for _ in range(draw(_I(0, 3)))]
-    devs = [{"addr": dst(), "exc": _pick(draw, [None, None, *DEV_EXC])} for _ in range(draw(_I(0, 3)))]
+    def fwd():
+        if draw(_I(0, 3)):
+            return None
+        return {"dst": dst() if draw(_I(0, 2)) else 0x3000 + draw(_I(0, 3)), "apci": _pick(draw, ["w1", "w0", "rd"])}
+
+    cbs = [{"out": bool(draw(_I(0, 1))), "exc": _pick(draw, [None, None, "ValueError", "conv", "RuntimeError"]), "fwd": fwd()} for _ in range(draw(_I(0, 3)))]
+    devs = [{"addr": dst(), "exc": _pick(draw, [None, None, *DEV_EXC]), "respond": draw(_I(0, 2)) == 0} for _ in range(draw(_I(0, 3)))]
     ops = []
     n_out = 0
     for _ in range(draw(_I(1, 14))):
@@ -401,7 +473,11 @@ def cases(draw):
         else:
             x = 0
         sends.append([kind, x])
-    return {"rate": rate, "cbs": cbs, "devs": devs, "ops": ops, "sends": sends}
+    for _ in range(draw(_I(0, 4))):  # plan entries for sends of follow-up telegrams
+        kind = _pick(draw, ["ok", "ok", "slow", "comm", "noconfirm"])
+        sends.append([kind, 0.3 if kind == "slow" else 1])
+    final = "xstop" if draw(_I(0, 2)) == 0 else "join"
+    return {"rate": rate, "cbs": cbs, "devs": devs, "ops": ops, "sends": sends, "final": final}
 
 
 def _labels(case):
@@ -418,6 +494,11 @@ def _labels(case):
         lab.append("raising-device")
     if any(op[0] == "restart" for op in case["ops"]):
         lab.append("restart")
+    if any(cb.get("fwd") for cb in case["cbs"]):
+        lab.append("follow-up:forwarding-callback")
+    if any(d.get("respond") for d in case["devs"]):
+        lab.append("follow-up:responding-device")
+    lab.append("final:" + case.get("final", "join"))
     return lab
 
 
@@ -444,6 +525,15 @@ FIXED = [
         "devs": [{"addr": 2563, "exc": "RuntimeError"}, {"addr": "i-a", "exc": None}],
         "ops": [_tg("out", 2563), _tg("out", 2564), _tg("out", "i-a"), _tg("in", 2563), _tg("out", 2565), _tg("out", 2566), ["sleep", 0.01], _tg("ind", 2564), _tg("out", 2567), _tg("out", 2568), _tg("out", 2569), _tg("out", 2570)],
         "sends": [["ok", 0], ["slow", 0.3], ["comm", 1], ["conv", 0], ["unexpected", 0], ["noconfirm", 0], ["lateconfirm", 3.5], ["slowraise", 1.0]],
+    },
+    # follow-ups while stopping through XKNX.stop(): a responding device answers a read, a callback forwards each telegram
+    {
+        "rate": 0,
+        "cbs": [{"out": True, "exc": None, "fwd": {"dst": 12288, "apci": "w1"}}],
+        "devs": [{"addr": 2563, "exc": None, "respond": True}],
+        "ops": [_tg("in", 2563, "rd"), _tg("out", 2564), _tg("ind", 2563, "rd")],
+        "sends": [],
+        "final": "xstop",
     },
     # burst without rate limit
     {"rate": 0, "cbs": [], "devs": [], "ops": [_tg("out", 100 + i) for i in range(10)], "sends": []},
